@@ -28,7 +28,7 @@ add("C11", "runtime monitoring: boundary monitors on inverse_circuit / clifford_
     TRUST, "DESIGN.md section 5, C11")
 
 add("C07", "runtime monitoring: sys.monitoring probes on every tableau primitive (invariant at a hook + transition check against an independent Pauli-algebra model) under exhaustive one-step and long random operation histories",
-    "Every call of every tableau primitive (nested calls included) is snapshotted at entry and checked at return: binary/symplectic/paired invariants and the exact stabilizer group the operation must produce (conjugation for gates, Aaronson-Gottesman post-condition for measurement, reset, insertion of |0>, removal / partial trace, tensor). Workload: all 11520 two-qubit tableaux x ~70 API calls (thorough; sampled in quick) and random histories up to n = 200 qubits, also through the Stabilizer / MixedStabilizer wrappers.",
+    "Every call of every tableau primitive (nested calls included) is snapshotted at entry and checked at return: binary/symplectic/paired invariants and the exact stabilizer group the operation must produce (conjugation for gates, Aaronson-Gottesman post-condition for measurement, reset, insertion of |0>, removal / partial trace, tensor). Workload: all 11520 two-qubit tableaux x ~70 API calls (thorough; sampled in quick) and random histories up to n = 200 qubits, also through the Stabilizer / MixedStabilizer wrappers. The repository's own test suite is a further workload: it runs unedited under the same passive monitor (vlib/pytest_mon.py). Unitary methods of the Stabilizer / MixedStabilizer wrappers (incl. apply_circuit forward / reversed) are also judged at the wrapper boundary.",
     TRUST + "measure_x / measure_y are judged on their outcome only.", "DESIGN.md section 5, C07")
 
 add("C03", "runtime monitoring: boundary monitors on the height functions / emitter count and a sys.monitoring probe on rref, judged by an independent GF(2) entanglement-entropy oracle; solver outputs inspected",
@@ -44,19 +44,19 @@ add("C16", "runtime monitoring: boundary monitors on relabel / get_relabel_map /
     TRUST + "VF2 (networkx) decides isomorphism above 7 vertices.", "DESIGN.md section 5, C16")
 
 add("C08", "runtime monitoring: boundary monitors on every conversion function and on QuantumState.convert_representation for all ordered representation pairs, judged by independent graph-state / Pauli-algebra / dense oracles; probe on the Hadamard-position finder",
-    "All labelled graphs on <=4 (thorough <=5) vertices and random graphs up to 40 vertices (8 for density matrices), in permuted node orders and random generating sets, go through graph<->stabilizer<->density conversions and all six ordered convert_representation pairs; all stabilizer states on <=2 (thorough <=3) qubits and random states up to 12 qubits go through state_to_graph, whose returned gates are replayed by the oracle onto the input and must give the returned graph's state with exact signs.",
+    "All labelled graphs on <=4 (thorough <=5) vertices and random graphs up to 40 vertices (8 for density matrices), in permuted node orders and random generating sets, go through graph<->stabilizer<->density conversions and all six ordered convert_representation pairs; all stabilizer states on <=2 (thorough <=3) qubits and random states up to 12 qubits go through state_to_graph, whose returned gates are replayed by the oracle onto the input and must give the returned graph's state with exact signs. History families: the same input object converted again after the previous result and then the input were changed in place; a refused conversion caught by the caller, then the object used further.",
     TRUST, "DESIGN.md section 5, C08")
 
 add("C01", "runtime monitoring: lock-step online checker - sys.monitoring probes on compile / compile_one_gate / measurement primitives record every executed operation, outcome, state and classical register, replayed against an independent reference simulator of the harness' own program specification; tableau monitor active underneath",
-    "Thousands of generated programs (add / insert_at interleavings, gates after measure-and-reset, classical control between same-type registers, 1-qubit circuits, wrappers) are compiled by both backends under forced 0 / forced 1 / probabilistic outcomes and optional stabilizer initial states. The monitor checks that the executed order is a linear extension of the per-register program order, that every drawn or forced outcome is possible / as forced, and compares the backend state and the classical register array with the reference after every single operation and at the end.",
+    "Thousands of generated programs (add / insert_at interleavings, gates after measure-and-reset, classical control between same-type registers, 1-qubit circuits, wrappers) are compiled by both backends under forced 0 / forced 1 / probabilistic outcomes and optional stabilizer initial states. The monitor checks that the executed order is a linear extension of the per-register program order, that every drawn or forced outcome is possible / as forced, and compares the backend state and the classical register array with the reference after every single operation and at the end. Also: operations carrying noise objects while noise simulation is off, noise simulation on without noise (one-component mixtures), and the repository's own test suite run under the passive lock-step monitor, each compile judged when it returns.",
     TRUST + "Probabilistic runs are judged conditioned on the outcomes drawn; outcome frequencies are not judged.", "DESIGN.md section 5, C01")
 
 add("C12", "runtime monitoring: invariant-at-a-hook / history checker - after every edit of a generated edit history the live CircuitDAG is walked by an independent structural checker and compared with the harness' own specification of each register wire",
-    "All edit histories of length <=2 (thorough <=3, ~40k histories) over a fixed 35-edit alphabet and random histories up to 200 edits over {add, insert_at on compatible edges, remove_op, replace_op, unwrap_nodes, group_one_qubit_gates, remove_identity, register additions, copy, assign_noise}. After every edit: acyclic, sources/sinks are the register inputs/outputs, each wire is a single path visiting exactly the specified operations in the specified order (object identity where known), edge_dict and node_dict agree with the graph, sequence() is a topological order, depth and register_depth equal the oracle's dynamic programme, register counts only change through register additions.",
+    "All edit histories of length <=2 (thorough <=3, ~40k histories) over a fixed 35-edit alphabet and random histories up to 200 edits over {add, insert_at on compatible edges, remove_op, replace_op, unwrap_nodes, group_one_qubit_gates, remove_identity, register additions, copy, assign_noise}. After every edit: acyclic, sources/sinks are the register inputs/outputs, each wire is a single path visiting exactly the specified operations in the specified order (object identity where known), edge_dict and node_dict agree with the graph, sequence() is a topological order, depth and register_depth equal the oracle's dynamic programme, register counts only change through register additions. Also: edits the API documents as rejected (wrong edge count, other registers, skipped register index) must leave the circuit unchanged; the label query functions are asked after every edit; the repository's own test suite runs under the passive DAG monitor.",
     TRUST + "register_depth (exponential-time in graphiq) is only queried on circuits with <=28 nodes.", "DESIGN.md section 5, C12")
 
 add("C18", "runtime monitoring: boundary monitors on the nine cost-metric classes (default and explicit construction) and on depth / register_depth, judged by an independent cost oracle over the harness' own operation lists",
-    "Generated circuits (solver vocabulary with >=1 emitter for all nine metrics; full alphabet for depth, per-register depth, emitter count and emitter-emitter CNOT count), with and without wrappers, identities, resets and with whole operation classes missing, are evaluated by every metric class constructed with default arguments and with an explicit penalty; each value is compared with the quantity computed from the specification, and the circuit is checked to be untouched afterwards.",
+    "Generated circuits (solver vocabulary with >=1 emitter for all nine metrics; full alphabet for depth, per-register depth, emitter count and emitter-emitter CNOT count), with and without wrappers, identities, resets and with whole operation classes missing, are evaluated by every metric class constructed with default arguments and with an explicit penalty; each value is compared with the quantity computed from the specification, and the circuit is checked to be untouched afterwards. Metric objects are reused across circuits, metrics are re-evaluated on the same circuit object after remove / replace edits, also through the Metrics container and with a non-monotone penalty.",
     TRUST + "CZ / Z-measurement are not judged for the unitary / measurement counts (not determined by the documentation).", "DESIGN.md section 5, C18")
 
 add("C14", "runtime monitoring: boundary monitors on the exporters / importers with (i) a structural and compiled-state comparison of the re-imported circuit against the harness' specification, (ii) an independent standard openQASM 2 reader (qiskit.qasm2 + dense reference) simulating the exported text branch by branch, (iii) textual determinism across exports, copies and processes with a different PYTHONHASHSEED",
@@ -72,7 +72,7 @@ add("C15", "runtime monitoring: boundary monitors on every comparison / de-dupli
     TRUST + "Equivalence is decided on three probe inputs (can hide, never fake, a violation).", "DESIGN.md section 5, C15")
 
 add("C02", "runtime monitoring: boundary monitor on TimeReversedSolver.solve; the returned circuit is judged by enumerating ALL measurement-outcome branches with the independent reference semantics and by lock-step monitored compiles on both backends; tableau and DAG monitors run inside solve()",
-    "Targets: every labelled graph on <=4 (thorough <=5) vertices, random / tree / cycle / complete / repeater / lattice / disjoint-union graphs up to 14 vertices in permuted orders, presented as graph, stabilizer (random generating set) and density-matrix QuantumState. For each returned circuit: validate(), DAG invariants, every outcome branch must end in |G><G| (x) |0..0>_emitters exactly (dense up to 7 qubits, stabilizer groups above), both real compilers are followed step by step under forced 0 / forced 1 / probabilistic outcomes, and the reported score must be the true infidelity 0.",
+    "Targets: every labelled graph on <=4 (thorough <=5) vertices, random / tree / cycle / complete / repeater / lattice / disjoint-union graphs up to 14 vertices in permuted orders, presented as graph, stabilizer (random generating set) and density-matrix QuantumState. For each returned circuit: validate(), DAG invariants, every outcome branch must end in |G><G| (x) |0..0>_emitters exactly (dense up to 7 qubits, stabilizer groups above), both real compilers are followed step by step under forced 0 / forced 1 / probabilistic outcomes, and the reported score must be the true infidelity 0. A probe on the time-reversed measurement records path signatures; a committed corpus (corpus/c02_trs_paths.json) of targets reaching every signature known on the pinned tree is solved and judged on every run.",
     TRUST + "Known finding trs-isolated-vertex (IndexError for targets with an isolated vertex) is reported, not hidden.", "DESIGN.md section 5, C02")
 
 add("C04", "runtime monitoring: sys.monitoring probes on the seven mutation moves check, at the return of every move (driven directly or inside solve()), the emission structure, the DAG invariants and the survival of every 'Fixed' emission / measure-and-reset operation present before the move",
